@@ -26,6 +26,21 @@ Labels ==
   \A Y \in 1900..2100 : PrintT(<<"LBL", ToJson([year |-> Y, label |-> TaxYearLabel(Y), date |-> DateUk(Y, 4, 5)])>>)
 ASSUME Labels
 
+\* echoes: every pairing of price currency and fee currency, values with 0-3 decimals, a half-penny, a million
+Curs == {"GBP", "USD", "EUR"}
+EchoPrices == {5, 1000, 1005, 12340, 150000, 1234565000}
+EchoFees == {0, 5, 4250, 7500, 1234565}
+EchoQtys == {10500, 3000, 1}
+Echo ==
+  \A pc \in Curs : \A fc \in Curs : \A pk \in EchoPrices : \A fk \in EchoFees :
+    LET q == CHOOSE x \in EchoQtys : (x = 10500 /\ fk # 0 /\ fk # 5) \/ (x = 3000 /\ fk = 0) \/ (x = 1 /\ fk = 5) IN
+    PrintT(<<"ECHO", ToJson([pcur |-> pc, fcur |-> fc, price |-> pk, fee |-> fk, qty |-> q,
+                             text_price |-> PriceText(pk, pc), text_fee |-> PriceText(fk, fc),
+                             pdf_price |-> CurCell(pk, pc), pdf_fee |-> CurCell(fk, fc),
+                             event_text |-> EventText(fk, fc), pdf_event |-> CurCell(fk, fc),
+                             qty_text |-> QtyText(q), qty_pdf |-> QtyPdf(q)])>>)
+ASSUME Echo
+
 VARIABLE dummy
 Init == dummy = 0
 Next == UNCHANGED dummy
